@@ -51,12 +51,28 @@ func (a shA) render() string {
 	}
 	return b.String() + a.Trail
 }
+// value of a segment: inside double quotes `\c` stands for c
+func (s shSegA) value() string {
+	if s.K != "dq" {
+		return s.S
+	}
+	rs := []rune(s.S)
+	out := []rune{}
+	for i := 0; i < len(rs); i++ {
+		if rs[i] == '\\' && i+1 < len(rs) {
+			i++
+		}
+		out = append(out, rs[i])
+	}
+	return string(out)
+}
+
 func (a shA) long() []string {
 	out := []string{}
 	for _, w := range a.Words {
 		v := ""
 		for _, s := range w.Segs {
-			v += s.S
+			v += s.value()
 		}
 		out = append(out, v)
 	}
@@ -69,6 +85,9 @@ func (a shA) shape() string {
 	for _, w := range a.Words {
 		for _, s := range w.Segs {
 			kinds[s.K] = true
+			if s.K == "dq" && strings.Contains(s.S, `\`) {
+				kinds["dq-escape"] = true
+			}
 			for _, r := range s.S {
 				switch {
 				case r == ' ' || r == '\t' || r == '\r' || r == '\n':
@@ -146,7 +165,13 @@ func rndShAST(ctx *core.Ctx, forDoc bool) shA {
 			case 0:
 				w.Segs = append(w.Segs, shSegA{"sq", str(0, 4, append([]rune(`"\`), shQuotedExtra...))})
 			case 1:
-				w.Segs = append(w.Segs, shSegA{"dq", str(0, 4, append([]rune(`'`), shQuotedExtra...))})
+				body := str(0, 4, append([]rune(`'`), shQuotedExtra...))
+				if r.Intn(3) == 0 { // escapes inside the double quotes: \" \\ \x
+					esc := []string{`\"`, `\\`, `\a`, `\'`, `\ `}[r.Intn(5)]
+					cut := r.Intn(len([]rune(body)) + 1)
+					body = string([]rune(body)[:cut]) + esc + string([]rune(body)[cut:])
+				}
+				w.Segs = append(w.Segs, shSegA{"dq", body})
 			case 2:
 				esc := append(append([]rune(`\"' `), shQuotedExtra...), plain...)
 				w.Segs = append(w.Segs, shSegA{"esc", string(esc[r.Intn(len(esc))])})
